@@ -115,7 +115,7 @@ def main(pid, rep=None, finish=True):
                 n += 1
                 continue
             labels = replay.parse_labels(labs + [lab])
-            h = ClientHarness(scr, cfg["tofu"], cfg["ep"], seed=rep.seed, verify_ssl=(n % 3 == 1))
+            h = ClientHarness(scr, cfg["tofu"], cfg["ep"], seed=rep.seed, verify_ssl=(n % 3 == 1), hold_verify=True)
             obs_seq = [h.project()]
             err = None
             try:
@@ -243,9 +243,15 @@ def b2(pid, rep, rnd, own, count, d):
         rec = scr["rec"]
         tofu = rnd.choice(["off", "first", "match"])
         ep = rnd.choice(["get", "upload"])
-        h = ClientHarness(scr, tofu, ep, verify_ssl=(k % 4 == 0))
+        h = ClientHarness(scr, tofu, ep, verify_ssl=(k % 4 == 0), hold_verify=True)
         try:
             pts = sorted(set(c for c in rec["cuts"] if rnd.random() < 0.6) | {rec["sendLen"]}) if rec["sendLen"] else []
+            # a server that talks first: some reads arrive before the request has left
+            early = rnd.choice([0, 0, 0, 1, 2, len(pts)]) if tofu != "off" else 0
+            for p in pts[:early]:
+                if not (h.tr.closing or h.tr.lost) and p > h.rx:
+                    h.do("Rx", p)
+            h.do("Verify")
             for p in pts:
                 if h.tr.closing or h.tr.lost:
                     break
@@ -399,7 +405,7 @@ def b2_traces(pid, rep, rnd, own, count, overlap=False):
             rec = scr["rec"]
             tofu = "off" if overlap else rnd.choice(["off", "first", "match", "match", "changed", "unreadable"])
             ep = rnd.choice(["get", "upload"])
-            h = ClientHarness(scr, tofu, ep, verify_ssl=(k % 4 == 0), shared=first)
+            h = ClientHarness(scr, tofu, ep, verify_ssl=(k % 4 == 0), shared=first, hold_verify=True)
             first = first or h
             pts = sorted(set(c for c in rec["cuts"] if rnd.random() < 0.6) | {rec["sendLen"]}) if rec["sendLen"] else []
             group.append({"h": h, "pts": pts, "steps": [], "tofu": tofu, "ep": ep})
@@ -410,6 +416,14 @@ def b2_traces(pid, rep, rnd, own, count, overlap=False):
         try:
             for g in group:
                 if g["tofu"] != "off":
+                    # the server may talk before the request has left
+                    for _ in range(rnd.choice([0, 0, 0, 1, 2, 50])):
+                        a = _next_action(g["h"], g["pts"])
+                        if a is None:
+                            break
+                        g["h"].do(a[0], a[1]) if a[0] == "Rx" else g["h"].do(a[0])
+                        log(g, a[0], a[1] or 0)
+                    g["h"].do("Verify")
                     log(g, "Verify")
             for _ in range(200):
                 ready = [(g, a) for g in group for a in [_next_action(g["h"], g["pts"])] if a is not None and
